@@ -162,6 +162,7 @@ def run(prog):
     out += label_order(prog)
     out += [force_permutation(prog)]
     out += order_selection(prog)
+    out += table_iterations(prog)
     if n < 8:
         raise CheckerError("VO: only %d table accesses recognised" % n)
     return out
@@ -380,3 +381,40 @@ def _same(r, good, name):
 def _components(rep):
     import re as _re
     return tuple(_re.findall(r"\('param', (\d)\)", rep))
+
+
+
+def table_iterations(prog):
+    """whole-table iterations: the elements of pos_to_var are labels, those of var_to_pos are levels; an iterator that
+    turns the elements into VarLabels (in_order_iter, reverse_in_order_iter, between_iter) must walk pos_to_var"""
+    out = []
+    n = 0
+    for fn in prog.lib_fns:
+        if fn.impl_self != VO or not any(b["term"]["k"] == "call" for b in fn.blocks):
+            continue
+        for cs in fn.terms.calls:
+            if cs.callee.name != "map" or len(cs.args) != 2:
+                continue
+            src = strip(cs.args[0])
+            while isinstance(src, tuple) and src and src[0] == "call" and src[1].name in ("iter", "skip", "take", "rev", "into_iter", "deref", "cloned", "copied") and src[2]:
+                src = strip(src[2][0])
+            tab = show(src)
+            which = "var_to_pos" if tab.endswith("var_to_pos") else ("pos_to_var" if tab.endswith("pos_to_var") else None)
+            clo = cs.args[1]
+            if which is None or not (isinstance(clo, tuple) and clo[0] == "agg" and clo[1] == "closure"):
+                continue
+            kids = [g for g in prog.lib_fns if g.npath == clo[2]]
+            if not kids:
+                continue
+            r = strip(kids[0].terms.ret)
+            if not (mir.is_call(r, "new") or mir.is_call(r, "new_usize")) or "VarLabel" not in r[1].key():
+                continue
+            n += 1
+            ok = which == "pos_to_var"
+            out.append(inst("VO", "%s:iter-elements" % fn.npath, OK if ok else VIOLATION, fn, cs.line,
+                            "labels are read from pos_to_var" if ok else
+                            "the elements of var_to_pos are levels, but they are turned into VarLabels: the iterator yields the "
+                            "inverse permutation of the order (equal only for self-inverse orders)"))
+    if n < 3:
+        raise CheckerError("VO: expected >= 3 table iterations producing labels, found %d" % n)
+    return out
